@@ -57,4 +57,18 @@ PROPS = {
                          "qsort modelled as insertion sort by the same comparator"],
         "assumptions": ["operands are in normal form (constructed from atom masks)"],
     },
+    "C20": {
+        "level": "proof",
+        "lean_targets": ["LP.Props.C20"],
+        "harnesses": [{"name": "h_container", "quick": 20000, "thorough": 300000}],
+        "select": lambda t: t[1] in ("hset", "heap", "pvec"),
+        "nontrivial": lambda t, r: len(t) > 3 and t[3].count(",") >= 3,
+        "rule": "random operation histories (insert copy/move/vector, remove, contains, size, intersect, clear, close+enumerate; heap push/"
+                "push_move/push_vector/pop/peek/remove/clear; vector push/push_move/at) over a pool of ~800 distinct polynomials whose real "
+                "lp_polynomial_hash values are reported; element choice is biased to a few hash&63 slots (one near the end of the table) "
+                "so that collision chains, wrap-around, removal inside chains and growth across the 70% threshold occur. Non-trivial = "
+                "history with at least 4 operations; distinct = distinct history.",
+        "trusted_base": ["elements are abstracted to (identity, reported hash): lp_polynomial_eq/lp_polynomial_hash themselves belong to C18"],
+        "assumptions": [],
+    },
 }
